@@ -23,6 +23,8 @@ class VLoop(asyncio.SelectorEventLoop):
         super().__init__(selectors.SelectSelector())
         self._vt = 0.0
         self.net = None
+        self.passes = 0
+        self.max_passes = None        # guard against endless zero-time activity (a harness run must terminate)
         self.all_tasks_created = []
         self.unhandled = []
         self.set_exception_handler(self._on_unhandled)
@@ -34,6 +36,10 @@ class VLoop(asyncio.SelectorEventLoop):
         return self._vt
 
     def _run_once(self):
+        self.passes += 1
+        if self.max_passes is not None and self.passes > self.max_passes:
+            self.max_passes = None
+            raise RuntimeError("virtual-clock loop exceeded its pass budget at t=%s (endless zero-time activity?)" % self._vt)
         while self._scheduled and self._scheduled[0]._cancelled:
             h = heapq.heappop(self._scheduled)
             h._scheduled = False
